@@ -401,6 +401,12 @@ fn main() {
             eprintln!("P {}", k);
             let mut prng = Rng::new(args.seed.wrapping_mul(0x9E37_79B9_7F4A_7C15) ^ (k as u64).wrapping_mul(0xD1B5_4A32_D192_ED03));
             let (prog, opts) = random_program(&args, k, &mut prng, mode);
+            if std::env::var("HX_DUMP_OPS").is_ok() {
+                for l in ops_text(&prog) {
+                    let l: String = l.chars().take(160).collect();
+                    eprintln!("  OP {}", l);
+                }
+            }
             for (_, op) in &prog.ops {
                 *ops_by_kind.entry(op.kind_name().to_string()).or_insert(0) += 1;
             }
